@@ -120,7 +120,13 @@ class RenderContext:
         """Resolve the variable _path_ in the current namespace."""
         it = iter(path)
         root = next(it)
-        assert isinstance(root, str)
+
+        if not isinstance(root, str):
+            # A path like `[0]`. Only names can be looked up in the scope.
+            if default == UNDEFINED:
+                hint = f"{root!r} is undefined"
+                return self.env.undefined(str(root), hint=hint, token=token)
+            return default
 
         try:
             obj = self.scope[root]
@@ -156,7 +162,13 @@ class RenderContext:
         """Asynchronously resolve the variable _path_ in the current namespace."""
         it = iter(path)
         root = next(it)
-        assert isinstance(root, str)
+
+        if not isinstance(root, str):
+            # A path like `[0]`. Only names can be looked up in the scope.
+            if default == UNDEFINED:
+                hint = f"{root!r} is undefined"
+                return self.env.undefined(str(root), hint=hint, token=token)
+            return default
 
         try:
             obj = self.scope[root]
